@@ -16,8 +16,8 @@ RACE_BIN = os.path.join(lib.WORK, "harness_race")
 GORACE = "halt_on_error=1 exitcode=66"
 
 # (processes per mode, iterations per process)
-SIZES = {"quick": dict(pipelines=(4, 120), readers=(4, 90), errsets=(2, 60)),
-         "thorough": dict(pipelines=(6, 1500), readers=(6, 1100), errsets=(4, 700))}
+SIZES = {"quick": dict(pipelines=(4, 120), readers=(4, 90), errsets=(2, 60), pathsets=(2, 80)),
+         "thorough": dict(pipelines=(6, 1500), readers=(6, 1100), errsets=(4, 700), pathsets=(3, 800))}
 
 CUTS = {"ToEntry": ["Modules.startEntry", "Modules.setEntryCache"], "Modules.FindModule": ["Modules.Read"]}
 READ_ROOTS = ["ToEntry", "Entry.Find", "Entry.Namespace", "Entry.InstantiatingModule", "Modules.FindModuleByNamespace",
@@ -179,6 +179,9 @@ def table_evidence():
                         "is written during processing; for a variable of an imported type such as sync.Map a method call that "
                         "is not known to be read-only counts as a write, race free or not)" % (nm[4:], fn))
     hand = {(fn, nm) for fn, f in tb.items() for k, nm, rw, h in f["items"] if k == "IAcc" and nm.startswith("handout:")}
+    for fn, nm in sorted({(fn, nm) for fn, f in tb.items() for k, nm, rw, h in f["items"] if k == "IAcc" and nm.startswith("adopt:")}):
+        findings.append("%s stores a slice/map parameter into %s without copying it: the object shares its backing store with the "
+                        "caller and with every other module set that was given the same argument" % (fn, nm[6:]))
     hallow = parse_handout()
     for fn, nm in sorted(hand - hallow):
         findings.append("%s returns a pointer to the package-level object %s: the process-wide object ends up in the data of a "
@@ -247,14 +250,14 @@ def run(res, tier, seed, proof):
     if proof["failed"]:
         sizes = SIZES["thorough"]  # the table no longer checks: look harder for a failing run
     jobs = []
-    for mode in ("pipelines", "readers", "errsets"):
+    for mode in ("pipelines", "readers", "errsets", "pathsets"):
         nproc, iters = sizes[mode]
         for i in range(nproc):
             jobs.append((mode, iters, seed * 1000 + i))
     tmo = 240 if sizes is SIZES["quick"] else 2400
     with ThreadPoolExecutor(max_workers=min(len(jobs), max(2, lib.NCPU // 2))) as ex:
         outs = list(ex.map(lambda j: run_harness(binary, j[0], j[1], j[2], tmo), jobs))
-    runs = {"pipelines": 0, "readers": 0, "errsets": 0}
+    runs = {"pipelines": 0, "readers": 0, "errsets": 0, "pathsets": 0}
     ops = {}
     bad = 0
     for (mode, iters, sd), (rc, out) in zip(jobs, outs):
@@ -297,7 +300,10 @@ def run(res, tier, seed, proof):
              "their own places, are processed one after the other in random orders and 8 at a time in "
              "parallel, and each set's full error list (positions included) must equal what a FRESH PROCESS handling only that "
              "set prints (child process `harness race errdump k 0`): results may not depend on what was processed before or "
-             "alongside.  All of them are non-trivial "
+             "alongside.; pathsets = 4 sets read from files in directories of their own, each "
+             "with a same-named local import, all configured by AddPath from ONE shared search-path list (append-built, spare "
+             "capacity): the AddPath/Read/Process steps of 2-3 pipelines are interleaved step by step in random schedules and 8 "
+             "pipelines run in parallel, every dump compared with a fresh process (`harness race pathdump`).  All of them are non-trivial "
              "(every run shares the package-level tables or the processed set with 7 others)."
              % ("built with -race, GORACE=" + GORACE if race_on else "race detector UNAVAILABLE: result comparison only"),
         samples=["harness race %s %d %d" % j for j in jobs[:2] + jobs[-2:]],
